@@ -68,6 +68,8 @@ struct Pay {
 	/// closed: the channel that carried the HTLC was no longer a channel of the manager then (only
 	/// for those does the monitor get told that the resolution is complete)
 	resolutions: Vec<(usize, usize, bool)>,
+	/// (step, epoch) of every PaymentFailed
+	failed_at: Vec<(usize, usize)>,
 	/// fee_paid_msat of the first PaymentSent
 	fee_reported: Option<Option<u64>>,
 	n_path_failed: usize,
@@ -189,6 +191,22 @@ impl<'p> World<'p> {
 	fn older_than_fulfil(&self, k: usize, p: &Pay) -> bool {
 		let (snap_step, pending, _) = &self.reloads[k - 1];
 		pending.contains(&p.id) || p.created_step > *snap_step
+	}
+
+	/// Every PaymentFailed of the payment so far was ROLLED BACK by a later restart: restart `k` used a
+	/// manager persisted before the event was generated (the snapshot lists the payment as pending), so
+	/// in the restored manager the payment has not failed - a terminal event is only durable once the
+	/// manager that produced it is persisted ("if we restart without first persisting the
+	/// ChannelManager, another PaymentFailed may be generated", or, conditions having changed, the
+	/// payment goes on). Returns the first such `k`.
+	fn failures_rolled_back(&self, p: &Pay) -> Option<usize> {
+		if p.failed_at.is_empty() {
+			return None;
+		}
+		(1..=self.epoch).find(|k| {
+			let (snap_step, pending, _) = &self.reloads[*k - 1];
+			pending.contains(&p.id) && p.failed_at.iter().all(|(st, ep)| *ep < *k && *st > *snap_step)
+		})
 	}
 
 	/// Restart `k` used a manager older than the monitors it was combined with.
@@ -390,6 +408,7 @@ impl<'p> World<'p> {
 								let closed = self.carried_by_closed_channel(nodes, &h);
 								let p = &mut self.pays[ix];
 								p.failed.push(ep);
+								p.failed_at.push((step, ep));
 								p.resolutions.push((step, ep, closed));
 							}
 						},
@@ -404,7 +423,8 @@ impl<'p> World<'p> {
 							self.received.entry(*payment_hash).or_insert(*amount_msat);
 							let ep = self.epoch;
 							self.claimed_epoch.entry(*payment_hash).or_insert(ep);
-							let failed = self.pays.iter().any(|p| p.hash == *payment_hash && !p.failed.is_empty() && !p.dusty && !p.stale_failed && !p.stale_live);
+							let rolled_back = self.pays.iter().any(|p| p.hash == *payment_hash && self.failures_rolled_back(p).map(|k| ep >= k).unwrap_or(false));
+							let failed = !rolled_back && self.pays.iter().any(|p| p.hash == *payment_hash && !p.failed.is_empty() && !p.dusty && !p.stale_failed && !p.stale_live);
 							let failed_stale = self.pays.iter().any(|p| p.hash == *payment_hash && !p.failed.is_empty() && !p.dusty && !p.stale_failed && p.stale_live);
 							if failed_stale {
 								self.bad_stale("a restart from an older manager failed an HTLC that is live in the newer monitor; after PaymentFailed the recipient's claim of it was accepted".to_string());
@@ -646,7 +666,7 @@ impl<'p> World<'p> {
 		let id = PaymentId(hash.0);
 		let cur_epoch = self.epoch;
 		let cur_step = self.step;
-		self.pays.push(Pay { id, hash, preimage, amt, accepted: false, sent: vec![], failed: vec![], stale_failed: false, stale_live: false, created_step: cur_step, resolutions: vec![], fee_reported: None, n_path_failed: 0, dusty: amt < 2_000_000, epoch: cur_epoch });
+		self.pays.push(Pay { id, hash, preimage, amt, accepted: false, sent: vec![], failed: vec![], stale_failed: false, stale_live: false, created_step: cur_step, resolutions: vec![], failed_at: vec![], fee_reported: None, n_path_failed: 0, dusty: amt < 2_000_000, epoch: cur_epoch });
 		(hash, preimage, secret, id)
 	}
 
@@ -912,7 +932,12 @@ impl<'p> World<'p> {
 				p.resolutions.iter().any(|(st, ep, closed)| *closed && *ep < k && *st > *snap_step)
 			});
 			let mut mine = Vec::new();
-			if !p.sent.is_empty() && !p.failed.is_empty() {
+			// (a PaymentFailed that a restart rolled back - the manager used was persisted before it - followed
+			// by a settlement AFTER that restart is the truthful outcome of the restored state)
+			let undone = self.failures_rolled_back(p).map(|k| {
+				p.sent.iter().all(|e| *e >= k) && self.claimed_epoch.get(&p.hash).map(|e| *e >= k).unwrap_or(true)
+			}).unwrap_or(false);
+			if !p.sent.is_empty() && !p.failed.is_empty() && !undone {
 				mine.push(format!("payment {}: both PaymentSent and PaymentFailed were reported", tag));
 			}
 			// (after a restart events may be replayed: their handling has to be idempotent)
